@@ -168,7 +168,24 @@ func rocksMutate(c *Ctx, rule string) {
 			why = append(why, "the result of db.Write is not what Mutate returns")
 		}
 	}
-	c.Check(len(why) == 0, rule, name, fn.Pos(), "one batch: PutLogData(metadata) then PutCF(cf[m.Table], m.Key, m.Value) for every m, one Write, its error returned", strings.Join(why, "; "))
+	// the mutations are applied in the order given: a batch may write the same key more than once and the
+	// last write must win; an unstable reordering (sort.Slice, sort.Sort) makes equal keys change places
+	rg.Instrs(func(site regionSite, in ssa.Instruction) {
+		cc := callCommon(in)
+		if cc == nil || cc.StaticCallee() == nil || cc.StaticCallee().Pkg == nil {
+			return
+		}
+		f := cc.StaticCallee()
+		pk := f.Pkg.Pkg.Path()
+		unstable := pk == "sort" && (f.Name() == "Slice" || f.Name() == "Sort") || pk == "slices" && (f.Name() == "SortFunc" || f.Name() == "Sort")
+		if !unstable || len(cc.Args) == 0 {
+			return
+		}
+		if rg.Term(site, cc.Args[0]).Has(func(x *Term) bool { return x.IsParam(fn, 1) }) {
+			why = append(why, "the mutations are reordered with the unstable "+pk+"."+f.Name()+" before they are written: two writes of one key in one batch may change places and the older value wins")
+		}
+	})
+	c.Check(len(why) == 0, rule, name, fn.Pos(), "one batch: PutLogData(metadata) then PutCF(cf[m.Table], m.Key, m.Value) for every m in the order given, one Write, its error returned", strings.Join(why, "; "))
 }
 
 func c07Startup(c *Ctx) {
